@@ -1,6 +1,7 @@
 package main
 
 import (
+	"go/constant"
 	"go/token"
 	"go/types"
 	"strings"
@@ -33,12 +34,13 @@ func checkC17(c *Ctx) {
 	c.Decided = "the index algebra of the tree layout: a Tree is immutable after construction (fields stored only by the constructor and the two wait-time setters); arithmetic on the branch factor occurs only in Parent, ChildrenOf, heightOf and treeHeight, from which all other views derive; " +
 		"the parent of position c is (c-1) div B and the children of position p are the positions p*B+1 .. p*B+B clamped to n (polynomial identities on the extracted expressions), so with B >= 2 every position >= 1 lies in the child range of exactly its parent; " +
 		"ChildrenOf guards its slice expression (known replica, start < n, end <= n) and the constructor rejects a position list without the replica and a branch factor below 2."
-	c.Decided += " The tree height is the exact level count (integer recurrence read off treeHeight's loop, stored by the constructor); the position table is never written through an alias."
-	c.NotDec = "per-replica heights (heightOf) and SubTree closure as functional properties of their loops (the tree height itself is decided: C17.5), and consistency across replicas that were configured with different position lists."
+	c.Decided += " The tree height is the exact level count (integer recurrence read off treeHeight's loop, stored by the constructor); the position table is never written through an alias. A replica's height is the tree height minus its level, the levels being the position ranges (1, bf) -> (start+count, count*bf) that Parent/ChildrenOf induce (loop shape of heightOf, C17.8)."
+	c.NotDec = "SubTree closure as a functional property of its loop, and consistency across replicas that were configured with different position lists."
 	c.Expect("C17.1", 5)
 	c.Expect("C17.4", 3)
 	c.Expect("C17.5", 3)
 	c17Height(c)
+	c17HeightOf(c)
 	c17KauriUsesChildList(c)
 	// C17.7 the leader of a tree configuration is the tree's root, as every replica's own tree reports it: the proposal
 	// is pushed down from the root and the votes travel up to it, so any other leader proposes into an empty subtree
@@ -783,4 +785,249 @@ func c17IsRootDirect(p *Prog, fn *ssa.Function) bool {
 		}
 	}
 	return nIf <= 1 && len(callsIn(fn, false, func(cc *ssa.CallCommon) bool { _, isB := cc.Value.(*ssa.Builtin); return !isB })) == 0
+}
+
+// c17HeightOf (C17.8): a replica's height fits the shape of the tree: height(pos) = treeHeight - level(pos), where the
+// levels are the ranges [start, start+count) with (start, count) := (1, bf), then (start+count, count*bf), i.e. exactly
+// the ranges that Parent/ChildrenOf induce (children of the positions of one level fill the next). Two loop shapes are
+// decided: (A) the level scan  for lvl := 1; lvl < height; lvl++ { if start <= pos < start+count { return height-lvl };
+// start += count; count *= bf }  and (B) the walk to the root  for i := pos; i > 0; i = (i-1)/bf { lvl++ }; return height-lvl
+// (the Parent formula of C17.2). Anything else is reported as not recognised (the rule does not evaluate loops).
+func c17HeightOf(c *Ctx) {
+	p := c.P
+	fn := p.Method("internal/tree", "Tree", "heightOf")
+	if fn == nil {
+		c.Unresolved("C17.8", "Tree.heightOf", "anchor missing")
+		return
+	}
+	isConst := func(v ssa.Value, n int64) bool {
+		cst, ok := v.(*ssa.Const)
+		return ok && cst.Value != nil && cst.Value.Kind() == constant.Int && cst.Int64() == n
+	}
+	fieldLoad := func(v ssa.Value, name string) bool {
+		u, ok := v.(*ssa.UnOp)
+		if !ok || u.Op != token.MUL {
+			return false
+		}
+		fa, ok := u.X.(*ssa.FieldAddr)
+		return ok && fieldVar(fa.X.Type(), fa.Field) != nil && fieldVar(fa.X.Type(), fa.Field).Name() == name
+	}
+	isField := func(v ssa.Value, name string) bool {
+		if fieldLoad(v, name) {
+			return true
+		}
+		f, ok := v.(*ssa.Field) // t.height read from a value copy of the receiver
+		return ok && fieldVar(f.X.Type(), f.Field) != nil && fieldVar(f.X.Type(), f.Field).Name() == name
+	}
+	rp := p.Method("internal/tree", "Tree", "replicaPosition")
+	isPos := func(v ssa.Value) bool {
+		call, ok := v.(*ssa.Call)
+		return ok && rp != nil && calleeIs(&call.Call, rp)
+	}
+	// back-edge shape of a loop phi: init edge satisfies init, the other edge is  phi <op> operand
+	shape := func(ph *ssa.Phi, init func(ssa.Value) bool, op token.Token, operand func(ssa.Value) bool, commutative bool) bool {
+		if len(ph.Edges) != 2 {
+			return false
+		}
+		for i := 0; i < 2; i++ {
+			bo, ok := ph.Edges[1-i].(*ssa.BinOp)
+			if !init(ph.Edges[i]) || !ok || bo.Op != op {
+				continue
+			}
+			if bo.X == ph && operand(bo.Y) || commutative && bo.Y == ph && operand(bo.X) {
+				return true
+			}
+		}
+		return false
+	}
+	// conditions that hold on entry to block b (walk up the dominator tree over single-predecessor branch targets)
+	type cond struct {
+		c   *ssa.BinOp
+		pol bool
+	}
+	condsAt := func(b *ssa.BasicBlock) []cond {
+		var out []cond
+		for b != nil {
+			d := b.Idom()
+			if d == nil {
+				break
+			}
+			if len(b.Preds) == 1 && b.Preds[0] == d {
+				if iff, ok := d.Instrs[len(d.Instrs)-1].(*ssa.If); ok {
+					if bo, ok := iff.Cond.(*ssa.BinOp); ok {
+						out = append(out, cond{bo, d.Succs[0] == b})
+					}
+				}
+			}
+			b = d
+		}
+		return out
+	}
+	// x < y holds by (op, operands, polarity)?
+	less := func(cd cond, x, y func(ssa.Value) bool, strict bool) bool {
+		op := cd.c.Op
+		if !cd.pol {
+			switch op {
+			case token.LSS:
+				op = token.GEQ
+			case token.GEQ:
+				op = token.LSS
+			case token.GTR:
+				op = token.LEQ
+			case token.LEQ:
+				op = token.GTR
+			default:
+				return false
+			}
+		}
+		if strict {
+			return op == token.LSS && x(cd.c.X) && y(cd.c.Y) || op == token.GTR && x(cd.c.Y) && y(cd.c.X)
+		}
+		return op == token.LEQ && x(cd.c.X) && y(cd.c.Y) || op == token.GEQ && x(cd.c.Y) && y(cd.c.X)
+	}
+	reason := func() string {
+		// the loop phis
+		var phis []*ssa.Phi
+		eachInstr(fn, func(in ssa.Instruction) {
+			if ph, ok := in.(*ssa.Phi); ok && len(ph.Edges) == 2 {
+				phis = append(phis, ph)
+			}
+		})
+		var lvl, start, count, walk *ssa.Phi
+		for _, ph := range phis {
+			switch {
+			case shape(ph, func(v ssa.Value) bool { return isConst(v, 1) || isConst(v, 0) }, token.ADD, func(v ssa.Value) bool { return isConst(v, 1) }, true):
+				lvl = ph
+			case shape(ph, func(v ssa.Value) bool { return isField(v, "branchFactor") }, token.MUL, func(v ssa.Value) bool { return isField(v, "branchFactor") }, true):
+				count = ph
+			}
+		}
+		for _, ph := range phis {
+			if ph == lvl || ph == count {
+				continue
+			}
+			if count != nil && shape(ph, func(v ssa.Value) bool { return isConst(v, 1) }, token.ADD, func(v ssa.Value) bool { return v == count }, true) {
+				start = ph
+			}
+			// i = (i-1)/bf starting from the position
+			if len(ph.Edges) == 2 {
+				for i := 0; i < 2; i++ {
+					q, ok := ph.Edges[1-i].(*ssa.BinOp)
+					if !isPos(ph.Edges[i]) || !ok || q.Op != token.QUO || !isField(q.Y, "branchFactor") {
+						continue
+					}
+					if m, ok := q.X.(*ssa.BinOp); ok && m.Op == token.SUB && m.X == ph && isConst(m.Y, 1) {
+						walk = ph
+					}
+				}
+			}
+		}
+		if lvl == nil {
+			return "no level counter (a loop variable incremented by 1 per level) found"
+		}
+		lvlInit := int64(-1)
+		for _, e := range lvl.Edges {
+			if isConst(e, 0) {
+				lvlInit = 0
+			} else if isConst(e, 1) {
+				lvlInit = 1
+			}
+		}
+		isLvl := func(v ssa.Value) bool { return v == lvl }
+		isHeight := func(v ssa.Value) bool { return isField(v, "height") }
+		// every return: t.height (root), 0 (not in the tree / below the last level), or height - lvl under the level's conditions
+		nLevelRet := 0
+		for _, r := range returnsOf(fn) {
+			if len(r.Results) != 1 {
+				return "unexpected result list"
+			}
+			v := r.Results[0]
+			if isConst(v, 0) {
+				continue
+			}
+			if isHeight(v) {
+				rootOK := false
+				for b := r.Block(); b != nil; b = b.Idom() {
+					d := b.Idom()
+					if d == nil {
+						break
+					}
+					if iff, ok := d.Instrs[len(d.Instrs)-1].(*ssa.If); ok && len(b.Preds) == 1 && d.Succs[0] == b {
+						if call, ok := iff.Cond.(*ssa.Call); ok && call.Call.StaticCallee() != nil && call.Call.StaticCallee().Name() == "IsRoot" {
+							rootOK = true
+						}
+						if bo, ok := iff.Cond.(*ssa.BinOp); ok && bo.Op == token.EQL && (isPos(bo.X) && isConst(bo.Y, 0) || isPos(bo.Y) && isConst(bo.X, 0)) {
+							rootOK = true
+						}
+					}
+				}
+				if !rootOK {
+					return "the full height is returned at " + p.InstrPos(r) + " for a replica that is not known to be the root"
+				}
+				continue
+			}
+			bo, ok := v.(*ssa.BinOp)
+			if !ok || bo.Op != token.SUB || !isHeight(bo.X) || !isLvl(bo.Y) {
+				return "the result at " + p.InstrPos(r) + " is not height - level"
+			}
+			nLevelRet++
+			if walk != nil && start == nil {
+				// shape B: returned after the loop  for i > 0  ends, level counter from 0
+				if lvlInit != 0 {
+					return "the walk to the root counts levels from " + itoa(int(lvlInit)) + ", not 0"
+				}
+				hdr := walk.Block()
+				iff, ok := hdr.Instrs[len(hdr.Instrs)-1].(*ssa.If)
+				if !ok || lvl.Block() != hdr {
+					return "the walk's loop header is not recognised"
+				}
+				cb, ok := iff.Cond.(*ssa.BinOp)
+				okCond := ok && (cb.Op == token.GTR && cb.X == walk && isConst(cb.Y, 0) || cb.Op == token.NEQ && cb.X == walk && isConst(cb.Y, 0) || cb.Op == token.LSS && cb.Y == walk && isConst(cb.X, 0))
+				if !okCond || hdr.Succs[1] != r.Block() {
+					return "the walk does not run exactly until position 0 (the root) is reached"
+				}
+				continue
+			}
+			if start == nil || count == nil {
+				return "neither the level scan (start, count) nor the walk to the root (i = (i-1)/bf) is recognised"
+			}
+			if lvlInit != 1 || lvl.Block() != start.Block() || count.Block() != start.Block() {
+				return "the level scan's loop variables are not (start, count, lvl) := (1, bf, 1) of one loop"
+			}
+			isStart := func(v ssa.Value) bool { return v == start }
+			isEnd := func(v ssa.Value) bool {
+				b, ok := v.(*ssa.BinOp)
+				return ok && b.Op == token.ADD && (b.X == start && b.Y == count || b.X == count && b.Y == start)
+			}
+			lo, hi := false, false
+			for _, cd := range condsAt(r.Block()) {
+				if less(cd, isStart, isPos, false) {
+					lo = true
+				}
+				if less(cd, isPos, isEnd, true) {
+					hi = true
+				}
+			}
+			if !lo || !hi {
+				return "height - lvl is returned at " + p.InstrPos(r) + " without start <= pos && pos < start+count for that level"
+			}
+			// loop bound lvl < height
+			hdr := start.Block()
+			iff, ok := hdr.Instrs[len(hdr.Instrs)-1].(*ssa.If)
+			if !ok {
+				return "the level scan's loop header is not recognised"
+			}
+			cb, ok := iff.Cond.(*ssa.BinOp)
+			if !ok || !(cb.Op == token.LSS && isLvl(cb.X) && isHeight(cb.Y) || cb.Op == token.GTR && isLvl(cb.Y) && isHeight(cb.X)) {
+				return "the level scan does not cover exactly the levels 1 .. height-1"
+			}
+		}
+		if nLevelRet == 0 {
+			return "no result of the form height - level"
+		}
+		return ""
+	}()
+	c.Check(reason == "", "C17.8", "heightOf: a replica's height is the tree height minus its level in the positional layout", p.FuncPos(fn),
+		"level ranges (start, count) := (1, bf) -> (start+count, count*bf), result height-lvl under start <= pos < start+count (or the walk i -> (i-1)/bf to the root): the ranges that Parent/ChildrenOf induce",
+		"heightOf is not the level scan nor the walk to the root over the layout of Parent/ChildrenOf: "+reason+" (a replica's height disagrees with its parent's height minus one)")
 }
